@@ -322,6 +322,10 @@ h("kd3_tail_rle", "zlib-rs/src/deflate/algorithm/verif_kani.rs", "deflate::algor
   functions=["algorithm::rle::deflate_rle (the path taken when all input is consumed: lookahead == 0, avail_in == 0)"],
   bounds="one call; w_size 512; any strstart in 1..=600, any open block length, 0..=2 symbols already tallied, every flush mode except NoFlush, output room left",
   assumptions=["invariant: the open block is empty exactly when no symbol is tallied or deferred", "fill_window -> no-op asserting avail_in == 0", "flush_block_only -> model: the block takes every tallied symbol and block_start..strstart, symbol buffer emptied, block_start = strstart, avail_out stays > 0 (the real block writer is decided by KD4/KD5/KD1)"])
+h("kd4_build_bl_tree_announces_every_used_length", D + "/kd4_trees.rs", "deflate::verif_kani::kd4_trees", ["C05", "C01"], kernel="KD4", expect_s=60, timeout=900, weight=2, mem_gb=16,
+  functions=["deflate::build_bl_tree (HCLEN: index of the last code length to send, opt_len update)"],
+  bounds="any bit-length tree (19 lengths <= 7, also all-zero tails) in which at least one of the length symbols 1..=15 has a code (the end-of-block symbol guarantees it)",
+  assumptions=["scan_tree and build_tree stubbed to no-ops: the bit-length tree is given symbolically (they are decided by kd5_send_tree_* and kd4_build_tree_bl_*)", "order of the code-length alphabet transcribed from RFC 1951 3.2.7"])
 h("kd9_slide_hash_chain", "zlib-rs/src/deflate/slide_hash/verif_kani.rs", "deflate::slide_hash::verif_kani", ["C01"], kernel="KD9", expect_s=60, timeout=900,
   functions=["slide_hash::slide_hash_chain", "generic_slide_hash_chain::<32>"], bounds="64 symbolic entries, any wsize")
 
@@ -437,6 +441,8 @@ h("ki8_reset_equals_fresh", I + "/ki8_entry.rs", "inflate::verif_kani::ki8_entry
   kernel="KI8", expect_s=60, timeout=900,
   functions=["inflate::reset_with_config", "inflate::reset", "inflate::reset_keep", "Window::clear"],
   bounds="every scalar of the inflate State arbitrary (8 representative modes), every i32 windowBits; compared with reset of a freshly constructed State")
+h("ki8_reset_keep_forgets_the_stream", I + "/ki8_entry.rs", "inflate::verif_kani::ki8_entry", ["C16", "C13", "C14"], kernel="KI8", expect_s=30, timeout=900,
+  functions=["inflate::reset_keep"], bounds="any mode/flags/wrap/wbits/totals/register/tables before the call", assumptions=["rule table transcribed from zlib-ng's inflateResetKeep"])
 h("ki8_small_entry_points", I + "/ki8_entry.rs", "inflate::verif_kani::ki8_entry", ["C16", "C02"],
   kernel="KI8", expect_s=60, timeout=900,
   functions=["inflate::prime", "sync_point", "validate", "undermine", "mark", "codes_used", "get_header", "BitReader::prime"],
@@ -524,6 +530,10 @@ h("kc9_crc_combine_len0_1_2", CC, CCP, ["C09"], kernel="KC9", expect_s=120, time
   bounds="symbolic crc(A), symbolic B of concrete length 0, 1, 2; combine == bitwise CRC of A || B, both forms")
 h("kc9_crc_combine_len3_4", CC, CCP, ["C09"], kernel="KC9", tier="thorough", expect_s=600, timeout=3600, weight=2,
   functions=["crc32_combine", "crc32_combine_gen", "crc32_combine_op"], bounds="symbolic crc(A), symbolic B of concrete length 3 and 4")
+h("kc9_crc32_dispatch_passes_the_start_value", "zlib-rs/src/crc32/verif_kani.rs", "crc32::verif_kani", ["C09", "C08"], kernel="KC9", expect_s=60, timeout=900, weight=2, mem_gb=16,
+  functions=["crc32::crc32 (length dispatch)", "Crc32Fold::{new_with_initial,fold,finish} (portable path)"],
+  bounds="any start value; 63 and 64 symbolic bytes (both sides of the 64-byte switch); the 64 bytes cut at any point",
+  assumptions=["braid::crc32_braid -> cheap order- and start-sensitive fold (the kernel is decided by kc9_crc_braid_*)", "Kani builds without std: the pclmulqdq path (runtime CPU detection) is not encoded"])
 h("kc9_multmodp_identity", CC, CCP, ["C09"], kernel="KC9", expect_s=60, timeout=1200,
   functions=["multmodp"], bounds="every 32-bit b: x^0 is a left and right identity (GF(2)-linearity of the multiplier did not terminate in 1200 s and is not claimed)")
 AD = "zlib-rs/src/adler32/verif_kani.rs"
@@ -682,7 +692,7 @@ for _n, _v in RSS_MEASURED.items():
         HARNESSES[_n]["mem_gb"] = _v + 6
 
 QUICK = {
-    "C01": ["kd3_fizzle_matches_long_next", "kd3_tail_medium", "kd9_fill_window_slide_keeps_deferred_match", "kd9_slide_hash_chain", "kd4_gen_codes_n5", "kd4_build_tree_bl_k3", "kd5_send_tree_n4", "kd8_quick_finish_n1", "kd8_quick_finish_n3", "kd2_static_encode_matches_rfc", "ki5d_fixed_tables_are_rfc",
+    "C01": ["kd4_build_bl_tree_announces_every_used_length", "kd3_fizzle_matches_long_next", "kd3_tail_medium", "kd9_fill_window_slide_keeps_deferred_match", "kd9_slide_hash_chain", "kd4_gen_codes_n5", "kd4_build_tree_bl_k3", "kd5_send_tree_n4", "kd8_quick_finish_n1", "kd8_quick_finish_n3", "kd2_static_encode_matches_rfc", "ki5d_fixed_tables_are_rfc",
             "kd1_emitters_one_step", "ki5c_stored", "kd10_reset_equals_fresh"],
     "C02": ["ki1_bitreader_refill_model", "ki2_copy_match_twin_small", "ki2_extend_from_window_twin", "ki3_window_extend_ring",
             "ki5b_extra", "ki5b_name_entry_length", "ki5b_comment_entry_length", "ki5b_name", "ki5c_stored", "ki5d_len_step", "ki6_fast_loop_room", "ki7_inflate_copyblock",
@@ -692,7 +702,7 @@ QUICK = {
             "ki5e_length_gzip", "ki5b_hcrc"],
     "C04": ["ki5d_dist_long_code_dispatch", "ki1_bitreader_split", "ki5c_copyblock_resume", "ki5c_stored_trees", "ki5d_match_guard_dispatch", "ki5c_codelens_17_suspend", "ki5c_lenlens_order", "ki5b_extra", "ki5d_dist_step_friends",
             "ki7_inflate_copyblock", "ki3_window_extend_ring", "ki5c_typedo_b2_i0"],
-    "C05": ["kd6_stored_pending_block_fits_len16", "kd4_gen_codes_n5", "kd4_build_tree_bl_k2", "kd4_build_tree_bl_k3", "kd4_build_tree_bl_single", "kd5_send_tree_n4", "kd5_send_tree_z11_n13", "kd1_bitwriter_pack", "kd1_emitters_one_step", "kd1_bitwriter_full_register", "kd10_prime",
+    "C05": ["kd4_build_bl_tree_announces_every_used_length", "kd6_stored_pending_block_fits_len16", "kd4_gen_codes_n5", "kd4_build_tree_bl_k2", "kd4_build_tree_bl_k3", "kd4_build_tree_bl_single", "kd5_send_tree_n4", "kd5_send_tree_z11_n13", "kd1_bitwriter_pack", "kd1_emitters_one_step", "kd1_bitwriter_full_register", "kd10_prime",
             "kd2_static_encode_matches_rfc", "kd2_static_ltree_is_rfc_fixed_code", "kd7_zlib_wrapper", "kd8_quick_finish_n1",
             "kd10_set_dictionary_protocol"],
     "C06": ["kd10_prime_room0", "kd10_prime_room7", "kd10_prime_room8", "kd7_refused_call_without_space_is_harmless", "kd7_starved_flush_is_completed_by_the_next_call", "kd7_zlib_wrapper", "kd7_zlib_starved_finish", "kd10_prime", "kd10_params_tune", "kd10_set_header",
@@ -700,17 +710,17 @@ QUICK = {
     "C07": ["kd11_bound_counts_every_gzip_header_field", "kd8_quick_finish_n1", "kd8_quick_finish_n3", "kd7_gzip_header_none_s1"],  # kd6_stored_one_call (580 s, 18 GB): thorough tier
     "C08": ["ki3_window_extend_checksum_order", "ki5e_check_zlib", "ki5e_check_gzip", "ki5e_length_gzip", "ki5b_hcrc", "ki5b_fixed_part", "ki5b_name",
             "ki7_inflate_copyblock", "kc9_adler_len_0_1_2_3"],
-    "C09": ["kc9_adler_tail_reduces_any_sum", "kc9_crc_tables", "kc9_crc_braid_table", "kc9_crc_naive_step", "kc9_crc_braid_short",
+    "C09": ["kc9_crc32_dispatch_passes_the_start_value", "kc9_adler_tail_reduces_any_sum", "kc9_crc_tables", "kc9_crc_braid_table", "kc9_crc_naive_step", "kc9_crc_braid_short",
             "kc9_crc_combine_len0_1_2", "kc9_multmodp_identity", "kc9_adler_len_0_1_2_3"],
     "C10": ["kd10c_symbuf_clone_to", "ki2_copy_match_twin_small", "ki2_extend_from_window_twin", "ki3_window_extend_ring", "kd10_reset_equals_fresh",
             "ki8_reset_equals_fresh"],
     "C11": ["kd3_tail_slow", "kd3_tail_fast", "kd3_tail_huff", "kd7_starved_flush_is_completed_by_the_next_call", "kd7_zlib_wrapper", "kd8_quick_sync_n3", "kd1_emitters_one_step"],
-    "C13": ["ki5a_head_w1_n2", "ki5a_head_w5_n2", "ki5a_dictid_n3", "ki5a_dictid_n4", "ki5a_dictid_n4_have", "ki5a_set_dictionary", "ki3_get_dictionary_order", "kd7_zlib_wrapper", "kd10_set_dictionary_protocol"],
+    "C13": ["ki8_reset_keep_forgets_the_stream", "ki5a_head_w1_n2", "ki5a_head_w5_n2", "ki5a_dictid_n3", "ki5a_dictid_n4", "ki5a_dictid_n4_have", "ki5a_set_dictionary", "ki3_get_dictionary_order", "kd7_zlib_wrapper", "kd10_set_dictionary_protocol"],
     "C14": ["ki8_copy_refuses_a_borrowed_window", "ki8_reset_forgets_header_window_bits", "kd10_reset_equals_fresh", "ki8_reset_equals_fresh", "ka2_deflate_copy_alloc_failure", "kd10c_pending_clone_to",
             "kd10c_symbuf_clone_to", "ki8c_window_clone_to", "kd7_gzip_start_stale_gzindex"],
     "C15": ["kd7_starved_flush_is_completed_by_the_next_call", "kd7_flush_that_fills_the_buffer_is_repeated", "ki7_inflate_primed_32_then_fast", "ki7_inflate_copyblock", "ki7_inflate_terminal", "ki5c_copyblock_resume", "ki1_bitreader_refill_model", "ki8_sync",
             "ki8_sync_then_inflate", "kd7_zlib_wrapper"],
-    "C16": ["kd7_flush_that_fills_the_buffer_is_repeated", "kd7_finish_after_prime_on_a_finished_stream", "ki8_small_entry_points", "ki8_sync", "ki8_reset_equals_fresh", "ki5a_set_dictionary", "kd10_prime", "kd10_params_tune",
+    "C16": ["ki8_reset_keep_forgets_the_stream", "kd7_flush_that_fills_the_buffer_is_repeated", "kd7_finish_after_prime_on_a_finished_stream", "ki8_small_entry_points", "ki8_sync", "ki8_reset_equals_fresh", "ki5a_set_dictionary", "kd10_prime", "kd10_params_tune",
             "kd10_set_header", "kd10_set_dictionary_protocol", "ki7_inflate_terminal", "ki5e_terminal_modes"],
     "C18": ["ka3_default_allocator_fallback_is_a_matched_pair", "ka1_alloc_shim", "ka1_alloc_overflow_and_null", "ka2_deflate_copy_alloc_failure", "ka2_deflate_end_releases_once",
             "ka2_inflate_end_releases_once"],
